@@ -175,7 +175,7 @@ fn check() {
             _ => {}
         }
     }
-    if n < 1000 || closed_idle.load(Ordering::Relaxed) < 100 || distinct.len() < 10 {
+    if chk.violation_count() == 0 && (n < 1000 || closed_idle.load(Ordering::Relaxed) < 100 || distinct.len() < 10) {
         machinery(format!("vacuous: patterns={n} closed-for-idleness={} distinct={}", closed_idle.load(Ordering::Relaxed), distinct.len()));
     }
     let coverage = json!({
